@@ -48,15 +48,39 @@ theorem wordList_perm (ci : Bool) (ws ws' : List String) (w : String) (hp : ws.P
   rw [takesWhole_wordList ci ws w hws hw, takesWhole_wordList ci ws' w hws' hw, Bool.eq_iff_iff]
   simp only [List.any_eq_true, hp.mem_iff]
 
-/-- the grammars' rule order classifies every identifier like the vocabulary does, provided the
-    vocabularies are plain words.  Disjointness is not needed: model and spec test the classes in
-    the same order.  (The former hypothesis `hlow : x.toLower.toList = x.toList.map Char.toLower`
-    is provable for all strings — `String.toList_map` — and was dropped.) -/
+/-- the generator lists each vocabulary longest name first: that order is a rearrangement of the
+    configured names … -/
+theorem vocab_order_perm (ws : List String) : (sortByLenDesc ws).Perm ws := sortByLenDesc_perm ws
+
+/-- … in which no name comes after a shorter one (so a name that extends another one, `st.b` / `st`,
+    is tried first) -/
+theorem vocab_order_longest_first (ws : List String) :
+    (sortByLenDesc ws).Pairwise fun a b => b.length ≤ a.length := sortByLenDesc_sorted ws
+
+/-- for plain words any order of the alternatives classifies like the vocabulary does … -/
+theorem classifyOrdered_eq_spec (instrs macros regs pre : List String) (w : String)
+    (h1 : ∀ x ∈ instrs, PlainWord x) (h2 : ∀ x ∈ macros, PlainWord x) (h3 : ∀ x ∈ regs, PlainWord x)
+    (h4 : ∀ x ∈ pre, PlainWord x) (hw : PlainWord w) :
+    classifyOrdered instrs macros regs pre w = classifySpec instrs macros regs pre w := by
+  exact classifyOrdered_eq_spec_aux instrs macros regs pre w h1 h2 h3 h4 hw
+
+/-- … and so does the order the generator uses: the grammars' rule order classifies every identifier
+    like the vocabulary does, provided the vocabularies are plain words.  Disjointness is not needed:
+    model and spec test the classes in the same order.  (The former hypothesis
+    `hlow : x.toLower.toList = x.toList.map Char.toLower` is provable for all strings —
+    `String.toList_map` — and was dropped.) -/
 theorem classify_eq_spec (instrs macros regs pre : List String) (w : String)
     (h1 : ∀ x ∈ instrs, PlainWord x) (h2 : ∀ x ∈ macros, PlainWord x) (h3 : ∀ x ∈ regs, PlainWord x)
     (h4 : ∀ x ∈ pre, PlainWord x) (hw : PlainWord w) :
     classify instrs macros regs pre w = classifySpec instrs macros regs pre w := by
   exact classify_eq_spec_aux instrs macros regs pre w h1 h2 h3 h4 hw
+
+/- Names with a dot are outside `PlainWord`; there the order matters: listed in configuration order
+   `st` takes the first two characters of `st.b` (classifyOrdered ["st", "st.b"] [] [] [] "st.b" = none),
+   listed longest first the whole name is taken (classify … = instruction).  The matcher is defined by
+   well-founded recursion and does not reduce in the kernel, so this is not stated as an `example`;
+   it is exercised on every run by the correspondence check (dotted names in the generated
+   vocabularies, model evaluated by the compiled driver). -/
 
 /-- non-vacuity: `ld`, `ldx` in one vocabulary; `LDX` is an instruction, `ldxx` and `l` are not -/
 example : classify ["ld", "ldx"] ["mac"] ["a", "ab"] ["PK_A"] "LDX" = .instruction ∧
